@@ -401,6 +401,10 @@ func instantiateFactsMode(asserts []*Term, limit int, mode int) []*Term {
 				}
 			}
 			full := Imp(gq.guard, Forall(rest, Subst(gq.q.Args[0], map[*Term]*Term{k: inst})))
+			if len(rest) == 0 {
+				// witnesses of existential conclusions become constants the next round can use
+				full = skolemizeExists(full)
+			}
 			if !have[full.id] && full != True {
 				have[full.id] = true
 				news = append(news, full)
@@ -420,6 +424,9 @@ func instantiateFactsMode(asserts []*Term, limit int, mode int) []*Term {
 				seenK[t.id] = true
 				if t.Op == "var" && t.Sort == "Int" && (strings.HasPrefix(t.Name, "wit_") || strings.HasPrefix(t.Name, "|wit_")) {
 					skolems["@wit"] = append(skolems["@wit"], t)
+				}
+				if t.Op == "var" && t.Sort != "Int" && (strings.HasPrefix(t.Name, "wit_") || strings.HasPrefix(t.Name, "|wit_")) {
+					skolems["@wit|"+t.Sort] = append(skolems["@wit|"+t.Sort], t)
 				}
 				if t.Op == "var" && (strings.HasPrefix(t.Name, "sk_") || strings.HasPrefix(t.Name, "|sk_")) {
 					base := strings.TrimPrefix(strings.TrimPrefix(t.Name, "|"), "sk_")
@@ -516,6 +523,9 @@ func instantiateFactsMode(asserts []*Term, limit int, mode int) []*Term {
 				}
 			}
 			if k.Sort != "Int" {
+				for _, w := range skolems["@wit|"+k.Sort] {
+					add(w, 0)
+				}
 				ssorts := selectSortsOf(q, k)
 				soKeys := make([]string, 0, len(ssorts))
 				for so := range ssorts {
@@ -585,6 +595,9 @@ func instantiateFactsMode(asserts []*Term, limit int, mode int) []*Term {
 				}
 			}
 			full := Imp(gq.guard, Forall(rest, Subst(gq.q.Args[0], m)))
+			if len(rest) == 0 {
+				full = skolemizeExists(full)
+			}
 			if !have[full.id] && full != True {
 				have[full.id] = true
 				news = append(news, full)
